@@ -12,6 +12,7 @@ import CtyModel.Lemmas.d02Reject
 import CtyModel.Lemmas.d02Coll
 import CtyModel.Lemmas.d02Mod
 import CtyModel.Lemmas.d02Has
+import CtyModel.Lemmas.OpsFnsTie
 namespace CtyModel
 namespace C02
 open Num Value
@@ -642,6 +643,116 @@ example : D02.EqExact (.fin false 3 0 53) (.fin false 3 0 512) = true := by deci
 example : D02.Wrong .number Ty.string := ⟨by decide, by decide⟩
 example : D02.Good .string (.s "a") := ⟨by decide, by decide, by decide⟩
 example : keyIndex ⟨.number, .n (.fin false 1 (-1) 53)⟩ = .ok none := by decide
+
+/-! ### the same clauses about the REGENERATED definitions
+
+`Generated/OpsFns.lean` is rewritten from cty/value_ops.go by `extract/translate_ops.go` on every
+check; `Lemmas/OpsFnsTie.lean` proves each generated method equal to the hand-written one (for all
+operands with at most one marker layer), so the clauses above hold of the translated source text. -/
+
+/-- `logic_truth_tables` for the translated `Value.Not`, `And`, `Or`. -/
+theorem logic_truth_tables_generated (x y : Bool) :
+    Generated.OpsFns.Value_Not (boolVal x) = .ok (boolVal (!x)) ∧
+    Generated.OpsFns.Value_And (boolVal x) (boolVal y) = .ok (boolVal (x && y)) ∧
+    Generated.OpsFns.Value_Or (boolVal x) (boolVal y) = .ok (boolVal (x || y)) := by
+  rw [OpsFnsTie.not_eq _ (OpsFnsTie.single_boolVal x), OpsFnsTie.and_eq _ _ (OpsFnsTie.single_boolVal x) (OpsFnsTie.single_boolVal y),
+    OpsFnsTie.or_eq _ _ (OpsFnsTie.single_boolVal x) (OpsFnsTie.single_boolVal y)]
+  exact logic_truth_tables x y
+
+/-- `add_rounds_to_nearest_even` for the translated `Value.Add`. -/
+theorem add_rounds_to_nearest_even_generated (na nb : Bool) (ma mb : Nat) (ea eb : Int) (pa pb : Nat)
+    (hp : 0 < max pa pb) (hs : D02.exactSum na ma ea nb mb eb ≠ 0) :
+    ∃ (c : Num) (q : Nat),
+      Generated.OpsFns.Value_Add (numVal (.fin na ma ea pa)) (numVal (.fin nb mb eb pb)) = .ok (numVal c) ∧
+      c.prec = max pa pb ∧
+      D02.Exact c (if D02.exactSum na ma ea nb mb eb < 0 then -(q : Int) else q)
+        (min ea eb + ((bitlen (D02.exactSum na ma ea nb mb eb).natAbs - max pa pb : Nat) : Int)) ∧
+      D02.RoundNE (D02.exactSum na ma ea nb mb eb).natAbs (max pa pb) q
+        (bitlen (D02.exactSum na ma ea nb mb eb).natAbs - max pa pb) := by
+  rw [OpsFnsTie.add_eq _ _ (OpsFnsTie.single_numVal _) (OpsFnsTie.single_numVal _)]
+  exact add_rounds_to_nearest_even na nb ma mb ea eb pa pb hp hs
+
+/-- `sub_rounds_to_nearest_even` for the translated `Value.Subtract` (which is `val.Add(other.Negate())` in the source). -/
+theorem sub_rounds_to_nearest_even_generated (na nb : Bool) (ma mb : Nat) (ea eb : Int) (pa pb : Nat)
+    (hp : 0 < max pa pb) (hs : D02.exactSum na ma ea (!nb) mb eb ≠ 0) :
+    ∃ (c : Num) (q : Nat),
+      Generated.OpsFns.Value_Subtract (numVal (.fin na ma ea pa)) (numVal (.fin nb mb eb pb)) = .ok (numVal c) ∧
+      c.prec = max pa pb ∧
+      D02.Exact c (if D02.exactSum na ma ea (!nb) mb eb < 0 then -(q : Int) else q)
+        (min ea eb + ((bitlen (D02.exactSum na ma ea (!nb) mb eb).natAbs - max pa pb : Nat) : Int)) ∧
+      D02.RoundNE (D02.exactSum na ma ea (!nb) mb eb).natAbs (max pa pb) q
+        (bitlen (D02.exactSum na ma ea (!nb) mb eb).natAbs - max pa pb) := by
+  rw [OpsFnsTie.sub_eq _ _ (OpsFnsTie.single_numVal _) (OpsFnsTie.single_numVal _)]
+  exact sub_rounds_to_nearest_even na nb ma mb ea eb pa pb hp hs
+
+/-- `mul_rounds_to_nearest_even` for the translated `Value.Multiply` (512-bit product, `MinPrec`, `SetPrec` as written). -/
+theorem mul_rounds_to_nearest_even_generated (na nb : Bool) (ma mb : Nat) (ea eb : Int) (pa pb : Nat) :
+    ∃ (c : Num) (q : Nat),
+      Generated.OpsFns.Value_Multiply (numVal (.fin na ma ea pa)) (numVal (.fin nb mb eb pb)) = .ok (numVal c) ∧
+      D02.Exact c (NumCmp.sgnm (na != nb) q) (ea + eb + ((bitlen (ma * mb) - 512 : Nat) : Int)) ∧
+      D02.RoundNE (ma * mb) 512 q (bitlen (ma * mb) - 512) ∧
+      c.prec = max (max pa pb) c.minPrec := by
+  rw [OpsFnsTie.mul_eq _ _ (OpsFnsTie.single_numVal _) (OpsFnsTie.single_numVal _)]
+  exact mul_rounds_to_nearest_even na nb ma mb ea eb pa pb
+
+/-- `div_rounds_to_nearest_even` for the translated `Value.Divide`. -/
+theorem div_rounds_to_nearest_even_generated (na nb : Bool) (ma mb : Nat) (ea eb : Int) (pa pb : Nat)
+    (hp : 0 < max pa pb) (ha : ma ≠ 0) (hb : mb ≠ 0) :
+    ∃ (c : Num) (s k q : Nat),
+      Generated.OpsFns.Value_Divide (numVal (.fin na ma ea pa)) (numVal (.fin nb mb eb pb)) = .ok (numVal c) ∧
+      c.prec = max pa pb ∧
+      D02.Exact c (NumCmp.sgnm (na != nb) q) (ea - eb - (s : Int) - 1 + (k : Int)) ∧
+      D02.RoundQ (2 * (ma * 2 ^ s)) mb (max pa pb) q k := by
+  rw [OpsFnsTie.div_eq _ _ (OpsFnsTie.single_numVal _) (OpsFnsTie.single_numVal _)]
+  exact div_rounds_to_nearest_even na nb ma mb ea eb pa pb hp ha hb
+
+/-- `neg_abs_known` for the translated `Value.Negate`, `Value.Absolute`. -/
+theorem neg_abs_known_generated (x : Num) :
+    Generated.OpsFns.Value_Negate (numVal x) = .ok (numVal (Num.neg x)) ∧
+    Generated.OpsFns.Value_Absolute (numVal x) = .ok (numVal (Num.abs x)) := by
+  rw [OpsFnsTie.neg_eq _ (OpsFnsTie.single_numVal _), OpsFnsTie.abs_eq _ (OpsFnsTie.single_numVal _)]
+  exact ⟨(neg_abs_known x).1, (neg_abs_known x).2.1⟩
+
+/-- `mod_known` for the translated `Value.Modulo`. -/
+theorem mod_known_generated (x y : Num) :
+    Generated.OpsFns.Value_Modulo (numVal x) (numVal y) = (D02.modNum x y).map numVal := by
+  rw [OpsFnsTie.mod_eq _ _ (OpsFnsTie.single_numVal _) (OpsFnsTie.single_numVal _)]
+  exact (mod_known x y).1
+
+/-- Comparison exactness (`lessThan_greaterThan_exact`, `le_ge_eq_ne_compute`) for the four translated ordering methods. -/
+theorem comparisons_exact_generated (x y : Num) :
+    Generated.OpsFns.Value_LessThan (numVal x) (numVal y) = .ok (boolVal (decide (Num.cmp x y < 0))) ∧
+    Generated.OpsFns.Value_GreaterThan (numVal x) (numVal y) = .ok (boolVal (decide (Num.cmp x y > 0))) ∧
+    Generated.OpsFns.Value_LessThanOrEqualTo (numVal x) (numVal y) = .ok (boolVal (decide (Num.cmp x y < 0) || Num.rawEqual x y)) ∧
+    Generated.OpsFns.Value_GreaterThanOrEqualTo (numVal x) (numVal y) = .ok (boolVal (decide (Num.cmp x y > 0) || Num.rawEqual x y)) := by
+  rw [OpsFnsTie.lt_eq _ _ (OpsFnsTie.single_numVal _) (OpsFnsTie.single_numVal _),
+    OpsFnsTie.gt_eq _ _ (OpsFnsTie.single_numVal _) (OpsFnsTie.single_numVal _),
+    OpsFnsTie.le_eq' _ _ (OpsFnsTie.single_numVal _) (OpsFnsTie.single_numVal _),
+    OpsFnsTie.ge_eq' _ _ (OpsFnsTie.single_numVal _) (OpsFnsTie.single_numVal _)]
+  exact ⟨(lessThan_greaterThan_exact x y).1, (lessThan_greaterThan_exact x y).2, (le_ge_eq_ne_compute x y).1, (le_ge_eq_ne_compute x y).2.1⟩
+
+/-- `number_methods_reject_wrong_type` for the translated methods, for ALL operands with at most one marker layer
+(`OpsFnsTie.Single`; `OpsFnsTie.single_of_marksWF`: every value with a well-formed marker structure). -/
+theorem number_methods_reject_wrong_type_generated (a b : Value) (ha : OpsFnsTie.Single a) (hb : OpsFnsTie.Single b)
+    (h : D02.Wrong .number a.ty ∨ D02.Wrong .number b.ty) :
+    Generated.OpsFns.Value_Add a b = .panic "type mismatch" ∧ Generated.OpsFns.Value_Subtract a b = .panic "type mismatch" ∧
+    Generated.OpsFns.Value_Multiply a b = .panic "type mismatch" ∧ Generated.OpsFns.Value_Divide a b = .panic "type mismatch" ∧
+    Generated.OpsFns.Value_Modulo a b = .panic "type mismatch" ∧ Generated.OpsFns.Value_LessThan a b = .panic "type mismatch" ∧
+    Generated.OpsFns.Value_GreaterThan a b = .panic "type mismatch" ∧
+    Generated.OpsFns.Value_LessThanOrEqualTo a b = .panic "type mismatch" ∧
+    Generated.OpsFns.Value_GreaterThanOrEqualTo a b = .panic "type mismatch" := by
+  rw [OpsFnsTie.add_eq a b ha hb, OpsFnsTie.sub_eq a b ha hb, OpsFnsTie.mul_eq a b ha hb, OpsFnsTie.div_eq a b ha hb,
+    OpsFnsTie.mod_eq a b ha hb, OpsFnsTie.lt_eq a b ha hb, OpsFnsTie.gt_eq a b ha hb, OpsFnsTie.le_eq' a b ha hb,
+    OpsFnsTie.ge_eq' a b ha hb]
+  exact number_methods_reject_wrong_type a b h
+
+/-- The whole regenerated family at once: on operands with at most one marker layer every translated method IS the
+hand-written one (value and panic), so every theorem of this file about `Value.add … Value.or` transfers. -/
+theorem translated_methods_are_the_model (op : Op) (args : List Value) (h : ∀ a ∈ args, OpsFnsTie.Single a) :
+    OpsFnsTie.genRun op args = op.run args := OpsFnsTie.genRun_eq op args h
+
+example : OpsFnsTie.Single (numVal (.fin false 3 0 64)) := rfl
+example : OpsFnsTie.Single ((boolVal true).withMarks ["m"]) := by unfold OpsFnsTie.Single; decide
 
 end C02
 end CtyModel
